@@ -9,7 +9,10 @@ import (
 	"time"
 
 	"github.com/form3tech-oss/f1/v2/internal/metrics"
+	"github.com/form3tech-oss/f1/v2/internal/options"
 	"github.com/form3tech-oss/f1/v2/internal/progress"
+	"github.com/form3tech-oss/f1/v2/internal/run"
+	"github.com/form3tech-oss/f1/v2/internal/run/views"
 	f1testing "github.com/form3tech-oss/f1/v2/pkg/f1/testing"
 	"github.com/prometheus/client_golang/prometheus"
 )
@@ -61,6 +64,64 @@ func runC17Seq(c *ctx, nops int, maxd int, pSnap int) c17seq {
 		}
 	}
 	tr.Ev = append(tr.Ev, []any{"t", obsOf(st.Total())})
+	return tr
+}
+
+// the same kind of sequence THROUGH run.Result, the way a run uses the statistics: a progress tick is
+// SnapshotProgress + rendering the line + the dropped-iterations test; the end of the run is GetTotals + Summary. The
+// read-only calls of Result (rendering, Failed, HasDroppedIterations, Error) are no snapshot points: what is recorded
+// while they run belongs to the next period
+func runC17SeqResult(c *ctx, nops int, maxd int, pSnap int) c17seq {
+	st := &progress.Stats{}
+	res := run.NewResult(options.RunOptions{Scenario: "s", MaxDuration: time.Second, Concurrency: 1}, views.New(), st)
+	res.RecordStarted()
+	tr := c17seq{}
+	recs := 0
+	reads := func() {
+		switch c.rng.Intn(5) {
+		case 0:
+			_ = res.HasDroppedIterations()
+		case 1:
+			_ = res.Progress().Render()
+		case 2:
+			_ = res.Failed()
+		case 3:
+			_ = res.Error()
+		}
+	}
+	for k := 0; k < nops; k++ {
+		x := c.rng.Intn(100)
+		switch {
+		case x < pSnap:
+			res.SnapshotProgress(time.Second)
+			tr.Ev = append(tr.Ev, []any{"s", obsOf(res.Snapshot())})
+			_ = res.Progress().Render()
+			_ = res.HasDroppedIterations()
+		case x < pSnap+3:
+			res.GetTotals()
+			tr.Ev = append(tr.Ev, []any{"t", obsOf(res.Snapshot())})
+			_ = res.Summary().Render()
+		case x < pSnap+8:
+			st.Record(metrics.DroppedResult, 0)
+			tr.Ev = append(tr.Ev, []any{"d"})
+			reads()
+		default:
+			if recs >= 2000 {
+				continue
+			}
+			recs++
+			d := 1 + c.rng.Intn(maxd)
+			o := metrics.SuccessResult
+			if c.rng.Intn(3) == 0 {
+				o = metrics.FailedResult
+			}
+			st.Record(o, int64(d))
+			tr.Ev = append(tr.Ev, []any{"r", o.String(), d})
+			reads()
+		}
+	}
+	res.GetTotals()
+	tr.Ev = append(tr.Ev, []any{"t", obsOf(res.Snapshot())})
 	return tr
 }
 
@@ -213,6 +274,9 @@ func init() {
 			n := c.pick(60, 600)
 			for k := 0; k < n; k++ {
 				w.write(runC17Seq(c, 50+c.rng.Intn(c.pick(200, 600)), []int{5, 1000, 1_000_000}[c.rng.Intn(3)], []int{3, 10, 40}[c.rng.Intn(3)]))
+				if k%2 == 0 {
+					w.write(runC17SeqResult(c, 50+c.rng.Intn(c.pick(200, 600)), []int{5, 1000, 1_000_000}[c.rng.Intn(3)], []int{3, 10, 40}[c.rng.Intn(3)]))
+				}
 			}
 			w.close()
 			fmt.Println("c17 sequences:", w.n)
